@@ -2,6 +2,7 @@ import VirtioVerif.Model.Proto
 import VirtioVerif.Model.Layout
 import VirtioVerif.Model.Gpu
 import VirtioVerif.Model.Sound
+import VirtioVerif.Model.SmallDevs
 /-!
 Native line-protocol driver over all models: one request line in, one reply line out.
 `case …` lines reset per-case state and are echoed as `case`.
@@ -19,6 +20,9 @@ def step (w : World) (line : String) : World × String :=
   match line.trimAscii.toString.splitOn " " with
   | "case" :: _ => (World.fresh, "case")
   | "layout" :: op :: rest => (w, Layout.handle op (Proto.parseArgs rest))
+  | "rng" :: op :: rest => (w, Small.handle "rng" op (Proto.parseArgs rest))
+  | "rtc" :: op :: rest => (w, Small.handle "rtc" op (Proto.parseArgs rest))
+  | "p9" :: op :: rest => (w, Small.handle "p9" op (Proto.parseArgs rest))
   | "snd" :: op :: rest => let (g, o) := Sound.handle w.snd op (Proto.parseArgs rest); ({ w with snd := g }, o)
   | "gpu" :: op :: rest => let (g, o) := Gpu.handle w.gpu op (Proto.parseArgs rest); ({ w with gpu := g }, o)
   | _ => (w, "bad-op")
